@@ -56,8 +56,22 @@ def cases(tier, rng):
             kind = cards.pick(rng, ["F2", "FL", "F3"])
             proc = "CC" if kind == "F3" else proc
             pto = min(pto, 1)
-        out.append(dict(id=f"c19-{i}", tmc=tmc, kind=kind, proc=proc, scheme=scheme, pto=pto, x=float(x), xcls=xcls, Q2=cards.logu(rng, 5.0, 1e3), family=fam,
-                        heavy=cards.pick(rng, ["total", "light"]), pdf=pdfs.SmoothPDF.random(rng), proj="neutrino" if proc == "CC" else "electron", timeout=900))  # fmt: skip
+        heavy = cards.pick(rng, ["total", "light"])
+        is_log = True
+        if i % 3 == 2 and not tmc:
+            # linear interpolation (polynomials in x): adequate from medium x upwards; and the asymptotic schemes, whose intrinsic
+            # matching kernels are the only singular-without-regular distributions of the package
+            is_log = False
+            if xcls == "lowx":
+                xcls, x = "midx", float(rng.uniform(0.05, 0.3))
+            scheme = cards.pick(rng, ["ZM-VFNS", "FFN0", "FONLL-FFN0", "FFNS"])
+            if scheme in ("FFN0", "FONLL-FFN0"):
+                pto = max(pto, 1)
+                kind = cards.pick(rng, ["F2", "F3", "F2", "FL"])
+                proc = "CC" if (kind == "F3" and rng.random() < 0.5) else "NC"
+                heavy = cards.pick(rng, ["charm", "total", "charm"])
+        out.append(dict(id=f"c19-{i}", tmc=tmc, kind=kind, proc=proc, scheme=scheme, pto=pto, x=float(x), xcls=xcls, Q2=cards.logu(rng, 5.0, 1e3), family=fam, is_log=is_log,
+                        heavy=heavy, pdf=pdfs.SmoothPDF.random(rng), proj="neutrino" if proc == "CC" else "electron", timeout=900))  # fmt: skip
     return out
 
 
@@ -86,7 +100,7 @@ def run_tmc_family(case, th):
     preds, epss, Ss, Es = [], [], [], []
     for gs in case["family"]:
         xg = cards.grid(gs["n_low"], gs["n_mid"], x_min=1e-4, kind=gs["kind"])
-        ob = cards.observables({name: [dict(x=x, Q2=Q2)]}, xgrid=xg, deg=gs["deg"], prDIS=case["proc"], ProjectileDIS=case["proj"])
+        ob = cards.observables({name: [dict(x=x, Q2=Q2)]}, xgrid=xg, deg=gs["deg"], prDIS=case["proc"], ProjectileDIS=case["proj"], is_log=case.get("is_log", True))
         res = yad.run_yadism(th, ob)[name][0]
         interp = run.interpolator(ob)
         fmat = np.array([[pdf.f(pid, xj) for xj in xg] for pid in cards.PIDS])
@@ -143,7 +157,7 @@ def run_case(case):
         for gi, gs in enumerate(case["family"]):
             xg = cards.grid(gs["n_low"], gs["n_mid"], x_min=min(1e-4, x / 5), kind=gs["kind"])
             # put x exactly on a node of the finest grid for the continuity relation
-            ob = cards.observables({name: [dict(x=x, Q2=Q2)]}, xgrid=xg, deg=gs["deg"], prDIS=case["proc"], ProjectileDIS=case["proj"])
+            ob = cards.observables({name: [dict(x=x, Q2=Q2)]}, xgrid=xg, deg=gs["deg"], prDIS=case["proc"], ProjectileDIS=case["proj"], is_log=case.get("is_log", True))
             out = yad.run_yadism(th, ob)
             interp = run.interpolator(ob)
             fmat = np.array([[pdf.f(pid, xj) for xj in xg] for pid in cards.PIDS])
@@ -177,7 +191,9 @@ def run_case(case):
             probes["truth_integrals"] += 1
             truth[o] = truth.get(o, 0.0) + xi * v
             tscale[o] = tscale.get(o, 0.0) + xi * s
-    cellb = f"{case['kind']}|{case['proc']}|{case['scheme']}"
+    cellb = f"{case['kind']}|{case['proc']}|{case['scheme']}|{'log' if case.get('is_log', True) else 'lin'}"
+    if not case.get("is_log", True):
+        classes.add("lin-mode")
     adequate = [i for i, e in enumerate(epss) if e <= 1e-2]
     rows = []
     for o in range(case["pto"] + 1):
@@ -236,7 +252,7 @@ def run_case(case):
     gs = case["family"][-1]
     xg_f = cards.grid(gs["n_low"], gs["n_mid"], x_min=min(1e-4, x / 5), kind=gs["kind"])
     xg_w = cards.warp_grid(xg_f)
-    ob_w = cards.observables({name: [dict(x=x, Q2=Q2)]}, xgrid=xg_w, deg=gs["deg"], prDIS=case["proc"], ProjectileDIS=case["proj"])
+    ob_w = cards.observables({name: [dict(x=x, Q2=Q2)]}, xgrid=xg_w, deg=gs["deg"], prDIS=case["proc"], ProjectileDIS=case["proj"], is_log=case.get("is_log", True))
     res_w = yad.run_yadism(th, ob_w)[name][0]
     fm_w = np.array([[pdf.f(pid, xj) for xj in xg_w] for pid in cards.PIDS])
     eps_w = interp_error(run.interpolator(ob_w), xg_w, pdf, x)
@@ -260,7 +276,7 @@ def run_case(case):
     xg = cards.grid(gs["n_low"], gs["n_mid"], x_min=min(1e-4, x / 5), kind=gs["kind"])
     kn = int(np.argmin(np.abs(np.log(np.array(xg[:-1])) - np.log(x))))
     xn = xg[kn]
-    ob = cards.observables({name: [dict(x=xn, Q2=Q2), dict(x=xn * (1 + 1e-9), Q2=Q2), dict(x=xn * (1 - 1e-9), Q2=Q2)]}, xgrid=xg, deg=gs["deg"], prDIS=case["proc"], ProjectileDIS=case["proj"])
+    ob = cards.observables({name: [dict(x=xn, Q2=Q2), dict(x=xn * (1 + 1e-9), Q2=Q2), dict(x=xn * (1 - 1e-9), Q2=Q2)]}, xgrid=xg, deg=gs["deg"], prDIS=case["proc"], ProjectileDIS=case["proj"], is_log=case.get("is_log", True))
     out = yad.run_yadism(th, ob)
     fmat = np.array([[pdf.f(pid, xj) for xj in xg] for pid in cards.PIDS])
     classes.add("on-node")
